@@ -47,7 +47,7 @@ def params(tier):
     if tier == 'quick':
         return {'examples': 1500, 'wall': 80, 'case_timeout': 20, 'max_steps': 4}
 
-    return {'examples': 40000, 'wall': 1500, 'case_timeout': 30, 'max_steps': 10}
+    return {'examples': 40000, 'wall': 600, 'case_timeout': 30, 'max_steps': 10}
 
 
 def floors(tier):
